@@ -9,6 +9,8 @@ from . import build, irf
 from .build import AnalysisBroken
 
 NAMEEND = r'(?![\w.$\-])'
+import itertools as _it
+_counter = _it.count()
 
 
 def _func_span(text, fname):
@@ -132,6 +134,10 @@ class FoldUnit:
                     k += 1
                     while ' = phi ' in lines[k]:
                         k += 1
+                elif h.get('after') is not None:
+                    k = defline(h['after']) + 1
+                    while ' = phi ' in lines[k]:
+                        k += 1
                 elif h.get('param'):
                     k = 1
                     if re.match(r'^[\w.$\-"]+:', lines[1]):
@@ -145,7 +151,13 @@ class FoldUnit:
                 raise ValueError(kind)
         # site marker: expectations are evaluated on the paths through the (first) hypothesis site
         for h in hyps[:1]:
-            if h.get('param') and h.get('at_label') is None:
+            if h.get('param') and h.get('at_label') is None and h.get('after') is None:
+                continue
+            if h.get('after') is not None:
+                k = defline(h['after']) + 1
+                while ' = phi ' in lines[k]:
+                    k += 1
+                lines.insert(k, '  call void @verif.site()')
                 continue
             if h.get('at_label') is not None:
                 lab = re.compile(r'^%s:' % re.escape(str(h['at_label'])))
@@ -170,8 +182,10 @@ class FoldUnit:
         if key in self.cache:
             return self.cache[key]
         wd = build.workdir()
-        a = os.path.join(wd, 'fold-%s.ll' % key)
-        b = os.path.join(wd, 'fold-%s.o.ll' % key)
+        import threading, itertools
+        uniq = '%s-%d-%d' % (key, threading.get_ident(), next(_counter))
+        a = os.path.join(wd, 'fold-%s.ll' % uniq)
+        b = os.path.join(wd, 'fold-%s.o.ll' % uniq)
         with open(a, 'w') as f:
             f.write(text)
         p = subprocess.run(['opt-14', '-S', '-passes=' + passes, a, '-o', b], capture_output=True, text=True)
@@ -353,7 +367,59 @@ def expect_no_indirect_call(F):
 
 
 def expect_call_dominates_rets(F, callee, argidx=None, argpred=None):
-    """a call to callee (with const arg satisfying argpred) dominates every reachable ret"""
+    """a call to callee (with const arg satisfying argpred) dominates every reachable ret;
+    with a hypothesis-site marker: lies on every path from the site to a ret"""
+    if after_site(F) is not None:
+        return _call_on_all_paths_from_site(F, callee, argidx, argpred)
+    return _call_dominates_rets(F, callee, argidx, argpred)
+
+
+def _call_on_all_paths_from_site(F, callee, argidx, argpred):
+    good = set()
+    for i in _reach_insts(F):
+        if i['op'] == 'call' and i.get('callee') == callee:
+            if argidx is not None:
+                a = i['ops'][argidx]
+                if a['k'] != 'c' or (argpred and not argpred(a['v'])):
+                    continue
+            good.add(i['id'])
+    bid = {b['id']: b for b in F.blocks}
+    # walk from each site marker; a path is cut when it meets a good call
+    ms = [i for i in _reach_insts(F) if i['op'] == 'call' and i.get('callee') == 'verif.site']
+    seen = set()
+    st = []
+
+    def scan(b, start_order):
+        """returns 'cut' if a good call occurs in block b after start_order, 'ret' if a ret is reached first, else 'go'"""
+        for i in bid[b]['insts']:
+            if F.order[i['id']] <= start_order:
+                continue
+            if i['id'] in good:
+                return 'cut', i
+            if i['op'] == 'ret':
+                return 'ret', i
+        return 'go', None
+    for m in ms:
+        b = F.block_of[m['id']]
+        r, i = scan(b, F.order[m['id']])
+        if r == 'ret':
+            return False, 'a ret (line %s) is reached from the site without a call to %s' % (i.get('line'), callee)
+        if r == 'go':
+            st.extend(F.succ[b])
+    while st:
+        b = st.pop()
+        if b in seen:
+            continue
+        seen.add(b)
+        r, i = scan(b, -1)
+        if r == 'ret':
+            return False, 'a ret (line %s) is reached from the site without a call to %s' % (i.get('line'), callee)
+        if r == 'go':
+            st.extend(F.succ[b])
+    return True, 'every path from the site to a ret calls %s' % callee
+
+
+def _call_dominates_rets(F, callee, argidx=None, argpred=None):
     calls = []
     for i in _reach_insts(F):
         if i['op'] == 'call' and i.get('callee') == callee:
@@ -390,3 +456,20 @@ def expect_no_store_to(F, param, off, value=None, size=None):
                 if s is None or value in s:
                     return False, 'store of possibly %d to arg%d+%d at line %s' % (value, param, off, i.get('line'))
     return True, 'no such store'
+
+
+def expect_stores_only(F, param, off, allowed, need=True):
+    """every store into (param + off) reachable after the site stores a constant from `allowed` (and one exists)"""
+    n = 0
+    for i in _site_insts(F):
+        if i['op'] != 'store':
+            continue
+        base, o = F.addr_of(i['ops'][1])
+        if base['k'] == 'a' and base['v'] == param and o == off:
+            n += 1
+            s = _const_set(F, i['ops'][0])
+            if s is None or not s <= set(allowed):
+                return False, 'store of %s to arg%d+%d at line %s' % (sorted(s) if s else 'a non-constant', param, off, i.get('line'))
+    if need and n == 0:
+        return False, 'no store to arg%d+%d remains' % (param, off)
+    return True, '%d store(s), all of %s' % (n, sorted(allowed))
